@@ -33,12 +33,22 @@ Record Ops := {
 }.
 
 
+(* values are parameterised by the two float carriers only (not by the whole record of primitives), so that
+   normal forms stay small whatever the instance *)
+Inductive val (T32 T64 : Type) :=
+| VF32 (x : T32) | VF64 (x : T64) | VI (k : ik) (z : Z) | VB (b : bool)
+| VT (l : list (val T32 T64)) | VOpt (o : option (val T32 T64)) | VUnit | VStr (s : string).
+Arguments VF32 {T32 T64}. Arguments VF64 {T32 T64}. Arguments VI {T32 T64}. Arguments VB {T32 T64}. Arguments VT {T32 T64}. Arguments VOpt {T32 T64}. Arguments VUnit {T32 T64}. Arguments VStr {T32 T64}.
+Definition valO (O : Ops) : Type := val (F32 O) (F64 O).
+(* control: value or early return; statement result: environment or early return (parameterised by the carriers only) *)
+Inductive ctl (T32 T64 : Type) := CVal (v : val T32 T64) | CRet (v : val T32 T64).
+Arguments CVal {T32 T64}. Arguments CRet {T32 T64}.
+Inductive sres (T32 T64 : Type) := SNorm (env : list (val T32 T64)) | SRet (v : val T32 T64).
+Arguments SNorm {T32 T64}. Arguments SRet {T32 T64}.
+
 Section E.
 Variable OP : Ops.
-
-Inductive val :=
-| VF32 (x : F32 OP) | VF64 (x : F64 OP) | VI (k : ik) (z : Z) | VB (b : bool)
-| VT (l : list val) | VOpt (o : option val) | VUnit | VStr (s : string).
+Notation val := (valO OP).
 
 Inductive prim :=
 | PF1 (k:fk) (o:fop1) | PF2 (k:fk) (o:fop2) | PF3 (k:fk) (o:fop3) | PFCmp (k:fk) (c:fcmp) | PFPred (k:fk) (p:fpred)
@@ -50,7 +60,7 @@ Inductive prim :=
 | PFromBits (k:fk) | PToBits (k:fk)
 | PMk | PProj (i:nat) | PUpd (i:nat) | PIdx | PLen | PSplat (n:nat)
 | PSome | PNone | PUnwrap | PSelect
-| PMapN (p:prim) | PReduce (k:fk) (o:fop2) (init:Z) | PSwizzle (idx:list nat) | PAny | PAll | PBitmask
+| PKey | PMapN (p:prim) | PReduce (k:fk) (o:fop2) (init:Z) | PSwizzle (idx:list nat) | PAny | PAll | PBitmask
 | PLanewise2 (o:fop2) | PLanewise1 (o:fop1) | PLanewise3 (o:fop3) | PLanewiseCmp (c:fcmp) | PCmpUnord                  (* _mm_add_ps etc: lane-wise f32 ops on 4-lane registers *)
 | PShuffle (imm:Z) | PMoveHL | PAddSS | PCvtSS | PSet1 | PMoveMask | PCvttEpi32 | PCvtEpi32Ps | PCmpLtEpi32 | PTake (n:nat) | PPad (n:nat).
 
@@ -66,9 +76,7 @@ with place := PVar (n:nat) | PFld (p:place) (i:nat).
 Record fn := { f_arity : nat; f_body : expr }.
 Variable tbl : positive -> option fn.
 
-(* control: value or early return *)
-Inductive ctl := CVal (v:val) | CRet (v:val).
-Definition M := res ctl.
+Definition M := res (ctl (F32 OP) (F64 OP)).
 Definition bindv (r : M) (k : val -> M) : M :=
   match r with Ok (CVal v) => k v | Ok (CRet v) => Ok (CRet v) | Panic => Panic | UB s => UB s | OutOfFuel => OutOfFuel | Stuck s => Stuck s end.
 Definition ret (v:val) : M := Ok (CVal v).
@@ -84,6 +92,8 @@ Definition mk4 (a b c d : F32 OP) : val := VT [VF32 a; VF32 b; VF32 c; VF32 d].
 Definition sel4 (x : F32 OP * F32 OP * F32 OP * F32 OP) (i:Z) : F32 OP := let '(a,b,c,d) := x in match i with 0 => a | 1 => b | 2 => c | _ => d end.
 Definition mask_of (b:bool) : F32 OP := f32_of_bits OP (if b then 4294967295 else 0).
 Definition sgn (x : F32 OP) : Z := if f32_pred OP FSignBit x then 1 else 0.
+(* integer with bit i set iff the i-th boolean is true, as a decision tree over the booleans (stays small when they are undetermined) *)
+Fixpoint bits_tree (bs : list bool) (acc w : Z) : Z := match bs with [] => acc | b :: t => if b then bits_tree t (acc + w) (2 * w) else bits_tree t acc (2 * w) end.
 Definition i32_of_u32 (z:Z) : Z := if Z.ltb z 2147483648 then z else z - 4294967296.
 Definition u32_of_i32 (z:Z) : Z := if Z.ltb z 0 then z + 4294967296 else z.
 
@@ -112,6 +122,7 @@ Definition vbools (l : list val) : option (list bool) := fold_right (fun v acc =
 Fixpoint bitmask_of (bs : list bool) : Z := match bs with [] => 0 | b :: t => (if b then 1 else 0) + 2 * bitmask_of t end.
 Fixpoint eval_prim (p:prim) (args:list val) {struct p} : res val :=
   match p, args with
+  | PKey, _ => k <- fold_left (fun acc v => a <- acc ;; match v with VI _ z => Ok (a * 16 + z) | _ => Stuck "key" end) args (Ok 0) ;; Ok (VI I64 k)
   | PMapN q, _ => match transpose_args args with Some rows => l <- mapres (eval_prim q) rows ;; Ok (VT l) | None => Stuck "mapn" end
   | PReduce K32 o i, [VT l] => fold_left (fun acc v => a <- acc ;; match a, v with VF32 x, VF32 y => Ok (VF32 (f32_2 OP o x y)) | _, _ => Stuck "reduce" end) l (Ok (VF32 (f32_of_bits OP i)))
   | PReduce K64 o i, [VT l] => fold_left (fun acc v => a <- acc ;; match a, v with VF64 x, VF64 y => Ok (VF64 (f64_2 OP o x y)) | _, _ => Stuck "reduce" end) l (Ok (VF64 (f64_of_bits OP i)))
@@ -119,7 +130,7 @@ Fixpoint eval_prim (p:prim) (args:list val) {struct p} : res val :=
   | PSwizzle idx, [VT la; VT lb] => l <- mapres (nthv (la ++ lb)) idx ;; Ok (VT l)
   | PAny, [VT l] => match vbools l with Some bs => Ok (VB (existsb (fun b => b) bs)) | None => Stuck "any" end
   | PAll, [VT l] => match vbools l with Some bs => Ok (VB (forallb (fun b => b) bs)) | None => Stuck "all" end
-  | PBitmask, [VT l] => match vbools l with Some bs => Ok (VI U64 (bitmask_of bs)) | None => Stuck "bitmask" end
+  | PBitmask, [VT l] => match vbools l with Some bs => Ok (VI U64 (bits_tree bs 0 1)) | None => Stuck "bitmask" end
   | PF1 K32 o, [VF32 a] => Ok (VF32 (f32_1 OP o a)) | PF1 K64 o, [VF64 a] => Ok (VF64 (f64_1 OP o a))
   | PF2 K32 o, [VF32 a; VF32 b] => Ok (VF32 (f32_2 OP o a b)) | PF2 K64 o, [VF64 a; VF64 b] => Ok (VF64 (f64_2 OP o a b))
   | PF3 K32 o, [VF32 a; VF32 b; VF32 c] => Ok (VF32 (f32_3 OP o a b c)) | PF3 K64 o, [VF64 a; VF64 b; VF64 c] => Ok (VF64 (f64_3 OP o a b c))
@@ -166,10 +177,10 @@ Fixpoint eval_prim (p:prim) (args:list val) {struct p} : res val :=
   | PAddSS, [a;b] => x <- lanes4 a ;; y <- lanes4 b ;; let '(a0,a1,a2,a3) := x in Ok (mk4 (f32_2 OP FAdd a0 (sel4 y 0)) a1 a2 a3)
   | PCvtSS, [a] => x <- lanes4 a ;; Ok (VF32 (sel4 x 0))
   | PSet1, [VF32 a] => Ok (mk4 a a a a)
-  | PMoveMask, [a] => x <- lanes4 a ;; let '(a0,a1,a2,a3) := x in Ok (VI I32 (sgn a0 + 2 * sgn a1 + 4 * sgn a2 + 8 * sgn a3))
-  | PCvttEpi32, [a] => x <- lanes4 a ;; let '(a0,a1,a2,a3) := x in let c z := f32_of_bits OP (u32_of_i32 (f32_cvtt_i32 OP z)) in Ok (mk4 (c a0) (c a1) (c a2) (c a3))
-  | PCvtEpi32Ps, [a] => x <- lanes4 a ;; let '(a0,a1,a2,a3) := x in let c z := f32_of_i32 OP (i32_of_u32 (f32_to_bits OP z)) in Ok (mk4 (c a0) (c a1) (c a2) (c a3))
-  | PCmpLtEpi32, [a;b] => x <- lanes4 a ;; y <- lanes4 b ;; let '(a0,a1,a2,a3) := x in let '(b0,b1,b2,b3) := y in let c p q := mask_of (Z.ltb (i32_of_u32 (f32_to_bits OP p)) (i32_of_u32 (f32_to_bits OP q))) in Ok (mk4 (c a0 b0) (c a1 b1) (c a2 b2) (c a3 b3))
+  | PMoveMask, [a] => x <- lanes4 a ;; let '(a0,a1,a2,a3) := x in Ok (VI I32 (bits_tree [f32_pred OP FSignBit a0; f32_pred OP FSignBit a1; f32_pred OP FSignBit a2; f32_pred OP FSignBit a3] 0 1))
+  | PCvttEpi32, [a] => x <- lanes4 a ;; let '(a0,a1,a2,a3) := x in let c z := f32_of_bits OP (i_cast OP I32 U32 (f32_cvtt_i32 OP z)) in Ok (mk4 (c a0) (c a1) (c a2) (c a3))
+  | PCvtEpi32Ps, [a] => x <- lanes4 a ;; let '(a0,a1,a2,a3) := x in let c z := f32_of_i32 OP (i_cast OP U32 I32 (f32_to_bits OP z)) in Ok (mk4 (c a0) (c a1) (c a2) (c a3))
+  | PCmpLtEpi32, [a;b] => x <- lanes4 a ;; y <- lanes4 b ;; let '(a0,a1,a2,a3) := x in let '(b0,b1,b2,b3) := y in let c p q := mask_of (i_cmp OP ILt (i_cast OP U32 I32 (f32_to_bits OP p)) (i_cast OP U32 I32 (f32_to_bits OP q))) in Ok (mk4 (c a0 b0) (c a1 b1) (c a2 b2) (c a3 b3))
   | PTake n, [VT l] => Ok (VT (firstn n l))
   | PPad n, [VT l] => match l with [] => Stuck "pad" | h::_ => Ok (VT (l ++ repeat (last l h) n)) end
   | _, _ => Stuck "prim"
@@ -181,7 +192,6 @@ Fixpoint pset (env:list val) (p:place) (v:val) : res (list val) :=
   match p with PVar n => upd env n v
   | PFld q i => old <- pget env q ;; match old with VT l => l' <- upd l i v ;; pset env q (VT l') | _ => Stuck "pset" end end.
 
-Inductive sres := SNorm (env:list val) | SRet (v:val).
 
 Fixpoint find_arm (z:Z) (arms:list (Z*expr)) (d:expr) : expr := match arms with [] => d | (k,e)::t => if Z.eqb z k then e else find_arm z t d end.
 
@@ -211,7 +221,7 @@ Fixpoint eval (fuel:nat) (env:list val) (e:expr) {struct fuel} : M :=
       | VT xs => (fix go (xs:list val) (acc:val) : M := match xs with [] => ret acc | x::xs' => bindv (eval fuel' (env ++ [acc; x]) b) (fun acc' => go xs' acc') end) xs iv
       | _ => Stuck "fold" end))
   end end
-with exec (fuel:nat) (env:list val) (ss:list stmt) {struct fuel} : res sres :=
+with exec (fuel:nat) (env:list val) (ss:list stmt) {struct fuel} : res (sres (F32 OP) (F64 OP)) :=
   match fuel with 0%nat => OutOfFuel | S fuel' =>
   match ss with
   | [] => Ok (SNorm env)
@@ -231,4 +241,3 @@ with exec (fuel:nat) (env:list val) (ss:list stmt) {struct fuel} : res sres :=
 Definition run (fuel:nat) (f:positive) (args:list val) : res val :=
   match tbl f with Some d => match eval fuel args (f_body d) with Ok (CVal v) | Ok (CRet v) => Ok v | Panic => Panic | UB s => UB s | OutOfFuel => OutOfFuel | Stuck s => Stuck s end | None => Stuck "nofn" end.
 End E.
-Arguments VF32 {OP}. Arguments VF64 {OP}. Arguments VI {OP}. Arguments VB {OP}. Arguments VT {OP}. Arguments VOpt {OP}. Arguments VUnit {OP}. Arguments VStr {OP}.
